@@ -536,7 +536,7 @@ func (w *World) callSitesIn(fn *ssa.Function) []callSite {
 			} else if sc := c.Call.StaticCallee(); sc != nil {
 				name = qualifiedFnName(sc)
 				if w.inPkg(sc) {
-					name = fnName(sc)
+					name = w.canonName(sc) // a renamed role keeps its conventional name in keys
 				}
 			} else if _, ok := c.Call.Value.(*ssa.Builtin); ok {
 				continue
